@@ -10,6 +10,8 @@ namespace FeatModel.DrvC06
 def nanQ : Rat := mkRat (-987654321) 1234567
 def isNan (x : Rat) : Bool := x == nanQ
 def gtEps (x : Rat) : Bool := decide (epsQ < x)
+/-- `Math::abs(x) > Math::eps<Q>()` -/
+def absGtEps (x : Rat) : Bool := decide (epsQ < (if x < 0 then -x else x))
 
 def ratN : P Rat := do
   match (← get) with
@@ -57,8 +59,8 @@ partial def filterP : P (Option (Flt Rat)) := do
   | "MB" =>
     let b ← nat; let c ← nat; let n ← nat
     let prim ← many (n * b) ratN; let dual ← many (n * b) ratN; let sol ← many b ratN; let vol ← many b ratN
-    if c == 0 then pure ((MeanBF.mk3 gtEps b prim dual sol).map .meanB)
-    else if c == 1 then pure ((MeanBF.mk4 gtEps b prim dual sol vol).map .meanB)
+    if c == 0 then pure ((MeanBF.mk3 absGtEps b prim dual sol).map .meanB)
+    else if c == 1 then pure ((MeanBF.mk4 absGtEps b prim dual sol vol).map .meanB)
     else pure (some (.meanB { bs := b, prim := [], dual := [], vol := List.replicate b 0, sol := List.replicate b 0 }))
   | "N" => pure (some .none)
   | "NB" => let _ ← nat; pure (some .none)
